@@ -56,3 +56,335 @@ pub fn leading_minor<T: Scalar>(m: &[Vec<T>], k: usize) -> T {
     let sub: Vec<Vec<T>> = (0..k).map(|i| m[i][..k].to_vec()).collect();
     det(&sub)
 }
+
+// ---------------------------------------------------------------------------------------------
+// graph oracle (union-find based; independent of momtrop's HashSet routines)
+
+use num::rational::BigRational;
+use num::{One, Zero};
+
+#[derive(Clone, Debug)]
+pub struct OGraph {
+    pub edges: Vec<(u8, u8)>,
+    pub massive: Vec<bool>,
+    pub weights: Vec<BigRational>,
+    pub externals: Vec<u8>,
+}
+
+fn find(p: &mut Vec<usize>, i: usize) -> usize {
+    let mut r = i;
+    while p[r] != r {
+        r = p[r];
+    }
+    let mut c = i;
+    while p[c] != r {
+        let n = p[c];
+        p[c] = r;
+        c = n;
+    }
+    r
+}
+
+impl OGraph {
+    pub fn ne(&self) -> usize {
+        self.edges.len()
+    }
+    pub fn full(&self) -> u64 {
+        (1u64 << self.ne()) - 1
+    }
+    /// all vertex labels touched by an edge of the graph, sorted
+    pub fn vertices(&self) -> Vec<u8> {
+        let mut v: Vec<u8> = self.edges.iter().flat_map(|e| [e.0, e.1]).collect();
+        v.sort();
+        v.dedup();
+        v
+    }
+    fn vidx(&self) -> std::collections::HashMap<u8, usize> {
+        self.vertices().into_iter().enumerate().map(|(i, v)| (v, i)).collect()
+    }
+    /// union-find over all graph vertices using the edges in `mask`; returns root per vertex index
+    pub fn roots(&self, mask: u64) -> Vec<usize> {
+        let idx = self.vidx();
+        let mut p: Vec<usize> = (0..idx.len()).collect();
+        for (e, (a, b)) in self.edges.iter().enumerate() {
+            if mask >> e & 1 == 1 {
+                let (ra, rb) = (find(&mut p, idx[a]), find(&mut p, idx[b]));
+                if ra != rb {
+                    p[ra] = rb;
+                }
+            }
+        }
+        (0..p.len()).map(|i| find(&mut p, i)).collect()
+    }
+    /// (edges, touched vertices, connected components among touched vertices)
+    pub fn evc(&self, mask: u64) -> (usize, usize, usize) {
+        let idx = self.vidx();
+        let roots = self.roots(mask);
+        let mut touched = vec![false; idx.len()];
+        let mut ne = 0;
+        for (e, (a, b)) in self.edges.iter().enumerate() {
+            if mask >> e & 1 == 1 {
+                ne += 1;
+                touched[idx[a]] = true;
+                touched[idx[b]] = true;
+            }
+        }
+        let nv = touched.iter().filter(|t| **t).count();
+        let mut comps: Vec<usize> = (0..idx.len()).filter(|i| touched[*i]).map(|i| roots[i]).collect();
+        comps.sort();
+        comps.dedup();
+        (ne, nv, comps.len())
+    }
+    /// cyclomatic number: edges - touched vertices + components
+    pub fn loops(&self, mask: u64) -> usize {
+        let (e, v, c) = self.evc(mask);
+        e + c - v
+    }
+    /// contains every massive edge and has one connected component touching every external vertex
+    pub fn mm_spanning(&self, mask: u64) -> bool {
+        for e in 0..self.ne() {
+            if self.massive[e] && mask >> e & 1 == 0 {
+                return false;
+            }
+        }
+        if mask == 0 {
+            return false;
+        }
+        let idx = self.vidx();
+        let roots = self.roots(mask);
+        let mut touched = vec![false; idx.len()];
+        for (e, (a, b)) in self.edges.iter().enumerate() {
+            if mask >> e & 1 == 1 {
+                touched[idx[a]] = true;
+                touched[idx[b]] = true;
+            }
+        }
+        let mut comp: Option<usize> = None;
+        for v in &self.externals {
+            let i = match idx.get(v) {
+                Some(i) if touched[*i] => *i,
+                _ => return false,
+            };
+            match comp {
+                None => comp = Some(roots[i]),
+                Some(c) if c != roots[i] => return false,
+                _ => {}
+            }
+        }
+        true
+    }
+    pub fn weight_sum(&self, mask: u64) -> BigRational {
+        let mut s = BigRational::zero();
+        for e in 0..self.ne() {
+            if mask >> e & 1 == 1 {
+                s += &self.weights[e];
+            }
+        }
+        s
+    }
+    pub fn dod(&self, d: usize) -> BigRational {
+        self.weight_sum(self.full()) - BigRational::new((self.loops(self.full()) * d).into(), 2.into())
+    }
+    /// generalised degree of divergence
+    pub fn omega(&self, mask: u64, d: usize) -> BigRational {
+        if mask == 0 {
+            return BigRational::one();
+        }
+        let mut w = self.weight_sum(mask) - BigRational::new((self.loops(mask) * d).into(), 2.into());
+        if self.mm_spanning(mask) {
+            w -= self.dod(d);
+        }
+        w
+    }
+    pub fn num_loops(&self) -> usize {
+        self.loops(self.full())
+    }
+    /// the graph is connected (all touched vertices in one component)
+    pub fn connected(&self) -> bool {
+        self.evc(self.full()).2 == 1
+    }
+    /// edge masks of all spanning trees
+    pub fn spanning_trees(&self) -> Vec<u64> {
+        let nv = self.vertices().len();
+        let mut out = vec![];
+        for m in 0..=self.full() {
+            if (m.count_ones() as usize) + 1 == nv {
+                let (_, v, c) = self.evc(m);
+                if self.loops(m) == 0 && ((nv == 1) || (v == nv && c == 1)) {
+                    out.push(m);
+                }
+            }
+        }
+        out
+    }
+    /// spanning 2-forests: (edge mask, vertex-index membership of the first tree)
+    pub fn two_forests(&self) -> Vec<(u64, Vec<bool>)> {
+        let nv = self.vertices().len();
+        let mut out = vec![];
+        if nv < 2 {
+            return out;
+        }
+        for m in 0..=self.full() {
+            if (m.count_ones() as usize) + 2 == nv && self.loops(m) == 0 {
+                let roots = self.roots(m);
+                let r0 = roots[0];
+                let side: Vec<bool> = roots.iter().map(|r| *r == r0).collect();
+                let mut rs = roots.clone();
+                rs.sort();
+                rs.dedup();
+                if rs.len() == 2 {
+                    out.push((m, side));
+                }
+            }
+        }
+        out
+    }
+    /// fundamental cycle basis w.r.t. spanning tree `tree`: signature matrix [edge][cycle]
+    pub fn fundamental_signature(&self, tree: u64) -> Vec<Vec<isize>> {
+        let idx = self.vidx();
+        let ne = self.ne();
+        let non_tree: Vec<usize> = (0..ne).filter(|e| tree >> e & 1 == 0).collect();
+        let mut sig = vec![vec![0isize; non_tree.len()]; ne];
+        for (c, &e) in non_tree.iter().enumerate() {
+            sig[e][c] = 1;
+            let (l, r) = (idx[&self.edges[e].0], idx[&self.edges[e].1]);
+            if l == r {
+                continue;
+            }
+            // path in the tree from r back to l
+            let path = self.tree_path(tree, r, l);
+            for (f, forward) in path {
+                sig[f][c] = if forward { 1 } else { -1 };
+            }
+        }
+        sig
+    }
+    /// edges (with direction flag: traversed left->right) on the tree path from vertex index a to b
+    fn tree_path(&self, tree: u64, a: usize, b: usize) -> Vec<(usize, bool)> {
+        let idx = self.vidx();
+        let nv = idx.len();
+        let mut prev: Vec<Option<(usize, usize, bool)>> = vec![None; nv];
+        let mut seen = vec![false; nv];
+        let mut queue = std::collections::VecDeque::new();
+        seen[a] = true;
+        queue.push_back(a);
+        while let Some(v) = queue.pop_front() {
+            for (f, (l, r)) in self.edges.iter().enumerate() {
+                if tree >> f & 1 == 0 {
+                    continue;
+                }
+                let (li, ri) = (idx[l], idx[r]);
+                if li == v && !seen[ri] {
+                    seen[ri] = true;
+                    prev[ri] = Some((v, f, true));
+                    queue.push_back(ri);
+                } else if ri == v && !seen[li] {
+                    seen[li] = true;
+                    prev[li] = Some((v, f, false));
+                    queue.push_back(li);
+                }
+            }
+        }
+        let mut out = vec![];
+        let mut cur = b;
+        while cur != a {
+            let (p, f, fwd) = prev[cur].expect("tree path");
+            out.push((f, fwd));
+            cur = p;
+        }
+        out.reverse();
+        out
+    }
+    /// for each tree edge f=(l->r): vertex-index membership of the side containing l after removing f
+    pub fn tree_cut_sides(&self, tree: u64) -> Vec<Option<Vec<bool>>> {
+        let idx = self.vidx();
+        (0..self.ne())
+            .map(|f| {
+                if tree >> f & 1 == 0 {
+                    return None;
+                }
+                let roots = self.roots(tree & !(1u64 << f));
+                let rl = roots[idx[&self.edges[f].0]];
+                Some(roots.iter().map(|r| *r == rl).collect())
+            })
+            .collect()
+    }
+    pub fn ext_index(&self) -> Vec<usize> {
+        let idx = self.vidx();
+        self.externals.iter().map(|v| idx[v]).collect()
+    }
+}
+
+/// first Symanzik polynomial at x
+pub fn u_poly<T: Scalar>(g: &OGraph, x: &[T]) -> T {
+    let mut acc = T::rat(0, 1);
+    for t in g.spanning_trees() {
+        let mut m = T::rat(1, 1);
+        for e in 0..g.ne() {
+            if t >> e & 1 == 0 {
+                m = m * x[e];
+            }
+        }
+        acc = acc + m;
+    }
+    acc
+}
+
+/// second Symanzik polynomial F = sum_{2-forests} (P_{T1})^2 prod_{e not in F} x_e + U sum m_e^2 x_e.
+/// `pin[v]` = incoming external momentum at vertex index v (zero vector if not external).
+pub fn f_poly<T: Scalar>(g: &OGraph, x: &[T], pin: &[Vec<T>], m2: &[T]) -> T {
+    let mut acc = T::rat(0, 1);
+    for (fm, side) in g.two_forests() {
+        let dim = pin[0].len();
+        let mut s = T::rat(0, 1);
+        for d in 0..dim {
+            let mut c = T::rat(0, 1);
+            for (v, inside) in side.iter().enumerate() {
+                if *inside {
+                    c = c + pin[v][d];
+                }
+            }
+            s = s + c * c;
+        }
+        let mut m = s;
+        for e in 0..g.ne() {
+            if fm >> e & 1 == 0 {
+                m = m * x[e];
+            }
+        }
+        acc = acc + m;
+    }
+    let mut ms = T::rat(0, 1);
+    for e in 0..g.ne() {
+        ms = ms + m2[e] * x[e];
+    }
+    acc + u_poly(g, x) * ms
+}
+
+/// edge shifts conserving momentum for incoming momenta `pin` (tree flow), plus loop offsets
+pub fn shifts<T: Scalar>(g: &OGraph, tree: u64, sig: &[Vec<isize>], pin: &[Vec<T>], offsets: &[Vec<T>]) -> Vec<Vec<T>> {
+    let dim = pin[0].len();
+    let sides = g.tree_cut_sides(tree);
+    (0..g.ne())
+        .map(|e| {
+            (0..dim)
+                .map(|d| {
+                    let mut s = T::rat(0, 1);
+                    if let Some(side) = &sides[e] {
+                        for (v, inside) in side.iter().enumerate() {
+                            if *inside {
+                                s = s + pin[v][d];
+                            }
+                        }
+                    }
+                    for (c, off) in offsets.iter().enumerate() {
+                        if sig[e][c] != 0 {
+                            s = s + T::rat(sig[e][c] as i64, 1) * off[d];
+                        }
+                    }
+                    s
+                })
+                .collect()
+        })
+        .collect()
+}
